@@ -246,8 +246,11 @@ def execute(sc, sim):
         st.add_obs(obs0)
         codec = "export4" if sc["src"] == "export" else "tigerxml"
         src = cm.render_file({"tb": tb, "codec": codec, "layout": sc["layout"], "enc": "utf-8"})
-        obs = sim.run(dict(base, files={"/sim/w/tb.src": src},
-                           sessions=[{"id": "s", "ops": [["cli", cli_argv(sc)]]}]))
+        spec = dict(base, files={"/sim/w/tb.src": src},
+                    sessions=[{"id": "s", "ops": [["cli", cli_argv(sc)]]}])
+        obs = sim.run(spec)
+        if sc["io_seed"] % 12 == 0 and base.get("platform", "Linux") == "Linux":
+            cm.real_crosscheck(sim, st, spec, obs)
         obs["sessions"]["s"] = obs0["sessions"]["s"] + obs["sessions"]["s"]
     st.add_obs(obs)
     recs = obs["sessions"]["s"]
